@@ -120,6 +120,17 @@ Theorem C19_success_flush : forall O t n evs s' tr,
 Proof. exact tg_success_flush. Qed.
 Print Assumptions C19_success_flush.
 
+(* progress: if the record layer accepts every message, coap_session_connected (called when the
+   handshake completes and whenever an acknowledgement frees an NSTART slot) leaves the session
+   ESTABLISHED with a delay queue that is empty or held back by NSTART only *)
+Theorem C19_connected_progress : forall O, (forall k, 0 < or_tx O k) ->
+  forall s s' o,
+  ts_proto s = TgDtls -> ts_tls s = true -> ts_tls_est s = true -> ts_type s <> TgHello ->
+  tg_connected O s = (s', o) ->
+  ts_state s' = TgEstablished /\ tg_head_blocked s'.
+Proof. exact tg_connected_progress'. Qed.
+Print Assumptions C19_connected_progress.
+
 (* ---- the acceptor used by the check on implementation traces is sound: an accepted trace is
    the model's trace for its events and TLS return values, so all theorems above apply to it *)
 Theorem C19_accepts_sound : forall O tr s,
